@@ -1521,9 +1521,11 @@ bool SGXMLScanner::scanStartTag(bool& gotData)
     }
     else
     {
-        // An xsi:nil on an element that is not assessed (skip/lax wildcard)
-        // must not be taken for an attribute of the next validated element
+        // An xsi:nil or xsi:type on an element that is not assessed (skip/lax
+        // wildcard) must not be taken for an attribute of the next validated
+        // element
         ((SchemaValidator*)fValidator)->resetNillable();
+        ((SchemaValidator*)fValidator)->resetXsiType();
     }
 
     // squirrel away the element's QName, so that we can do an efficient
